@@ -146,6 +146,66 @@ func (c *Ctx) cod1(which map[string]bool) {
 				}
 			}
 			a.done(2, "clamped or proven within 0..publishIDMask+1 on every path")
+			// the limit that results is exactly the documented one, decided on
+			// representative settings: negative or beyond the identifier space
+			// means all of it; anything in between is taken as it is (zero disables)
+			ex := c.acc("COD-12", nc, "effective-"+fld+"-decided-on-representative-settings")
+			classify := func(v ssa.Value) adjLeaf {
+				if roleKey(v) == "Config."+fld {
+					return leafN
+				}
+				return leafNone
+			}
+			for _, setting := range []int64{-1, -5, 0, 1, 2, pm, pm + 1, pm + 2, 1 << 20} {
+				want := setting
+				if setting < 0 || setting > pm+1 {
+					want = pm + 1
+				}
+				seen := false
+				for _, p := range c.Paths("COD-12", nc) {
+					if p.End != pathx.KReturn || p.Start != nc.Blocks[0] {
+						continue
+					}
+					sat, used := adjDecide(p, nc, classify, uint64(setting), 0, 0, len(p.Events))
+					// (comparisons are on signed ints: re-evaluate those the unsigned evaluator got wrong)
+					sat = true
+					for _, cm := range assumed(p, 0, -1) {
+						if roleKey(cm.X) != "Config."+fld {
+							continue
+						}
+						if h, ok := cm.holds(setting); ok {
+							used = true
+							if !h {
+								sat = false
+							}
+						}
+					}
+					if !used || !sat {
+						continue
+					}
+					seen = true
+					got := setting
+					for i := range p.Events {
+						e := &p.Events[i]
+						if e.Kind == pathx.KStore && pathx.RoleOfAddr(e.Addr).Key() == "Config."+fld {
+							if k, ok := intConst(e.Val); ok {
+								got = k
+							} else {
+								got = -999
+							}
+						}
+					}
+					if got == want {
+						ex.pass()
+					} else {
+						ex.fail(p, len(p.Events)-1, "with Config.%s = %d the limit in force becomes %d, want %d", fld, setting, got, want)
+					}
+				}
+				if !seen {
+					ex.failAt(c.P.Pos(nc.Pos()), "no path of newClient decides Config.%s = %d", fld, setting)
+				}
+			}
+			ex.done(9, "negative and oversized settings give publishIDMask+1, others are kept")
 		}
 	}
 }
@@ -840,6 +900,51 @@ func (c *Ctx) cod3Suback(hs map[string]*ssa.Function) {
 			}
 		}
 		return
+	}
+	// (the collection may live in a helper introduced later: its paths are judged the same way)
+	var helpers []*ssa.Function
+	seenH := map[*ssa.Function]bool{fn: true}
+	var walkH func(f *ssa.Function, d int)
+	walkH = func(f *ssa.Function, d int) {
+		if d > 3 {
+			return
+		}
+		for _, g := range c.staticCallees(f) {
+			if !seenH[g] && c.isNewHelper(g) {
+				seenH[g] = true
+				helpers = append(helpers, g)
+				walkH(g, d+1)
+			}
+		}
+	}
+	walkH(fn, 0)
+	isSubErrAppend := func(e *pathx.Event) bool {
+		if e.Kind != pathx.KCall || e.Call == nil {
+			return false
+		}
+		bl, ok := e.Call.Value.(*ssa.Builtin)
+		return ok && bl.Name() == "append" && strings.HasSuffix(e.Call.Args[0].Type().String(), "SubscribeError")
+	}
+	for _, h := range helpers {
+		for _, p := range c.Paths("COD-3", h) {
+			for i := range p.Events {
+				if isSubErrAppend(&p.Events[i]) {
+					if yes, _ := is80(p, i); yes {
+						each.pass()
+					} else {
+						each.fail(p, i, "a topic filter is added to the SubscribeError on a path that has not established that its return code is 0x80")
+					}
+				}
+			}
+			if p.End == pathx.KLoopBack && p.Events[len(p.Events)-1].Target == p.Start {
+				yes, _ := is80(p, len(p.Events))
+				if yes && p.Index(0, isSubErrAppend) < 0 {
+					each.fail(p, len(p.Events)-1, "an iteration that saw return code 0x80 does not add the filter to the SubscribeError")
+				} else if yes {
+					each.pass()
+				}
+			}
+		}
 	}
 	for _, p := range c.Paths("COD-3", fn) {
 		choice := phiChoices(p, fn)
